@@ -28,11 +28,20 @@
                                                                     -> serialize_injective, hash_changes
    * "loading a document whose recorded hash disagrees with its content raises a warning"
                                                                     -> tampered_hash_warns
-   * the cycle check standing for graphlib.TopologicalSorter is exact -> cycle_check_exact *)
+   * the cycle check standing for graphlib.TopologicalSorter is exact -> cycle_check_exact
+   * "its configuration document fully determines it ... after a JSON round trip" for LITERAL nodes: a value is
+     written as JSON exactly when JSON can hold it as it is (type of every part included; GENERATED fact
+     literal_json_iff_exact about PipelineLiteral.represent), read back from the JSON tree unchanged, pickled
+     otherwise, and two different values (a tuple and the equal list, 1 and true, a key 1 and a key "1") never
+     share an entry - with config_roundtrip / hash_changes: the reloaded literal nodes hold the original values and
+     a change of a literal's type changes the hash         -> literal_json_roundtrip, literal_survives_reload,
+                                                              literal_change_changes_entry
+     (pickle_contract: the base85 pickle text of a value can be loaded again - library contract) *)
 From Coq Require Import String Ascii List Bool Permutation.
 From LK Require Import Lib.StrDict Lib.StrDictFacts Gen.C13_shape Model.C13_json Model.C13_config
   Proofs.C13_acyclic Proofs.C13_wf Proofs.C13_fromconfig Proofs.C13_roundtrip Proofs.C13_buildwf Proofs.C13_main
-  Proofs.C13_order Proofs.C13_print Proofs.C13_inject Proofs.C13_ops.
+  Proofs.C13_order Proofs.C13_print Proofs.C13_inject Proofs.C13_ops Model.C13_literal Proofs.C13_literal
+  Model.C13_text (* byte-list notation used by the correspondence case files; no theorem depends on it *).
 Import ListNotations.
 Open Scope string_scope.
 
@@ -113,6 +122,42 @@ Print Assumptions tampered_hash_warns.
 Theorem cycle_check_exact : forall g, acyclic_b g = true <-> Acyclic g.
 Proof. exact acyclic_b_spec. Qed.
 Print Assumptions cycle_check_exact.
+
+(* ---- literal values ---- *)
+Definition pickle_contract (pickle : pyv -> string) (unpickle : string -> option pyv) : Prop :=
+  forall v, unpickle (pickle v) = Some v.
+
+(* JSON text -> JSON tree -> Python value gives back a JSON-exact value, type of every part included *)
+Theorem literal_json_roundtrip : forall v, json_exact v = true -> pyv_wf v = true -> of_json (to_json v) = v.
+Proof. exact of_to_json. Qed.
+Print Assumptions literal_json_roundtrip.
+
+(* the entry represent writes decodes to the original value whatever its type; it is JSON iff the value is
+   JSON-exact; writing the decoded value again gives the same entry (so from_config + build_config keep it) *)
+Theorem literal_survives_reload : forall pickle unpickle, pickle_contract pickle unpickle ->
+  forall v, pyv_wf v = true ->
+  decode unpickle (represent pickle v) = Some v /\
+  (l_enc (represent pickle v) = "json" <-> json_exact v = true) /\
+  (l_enc (represent pickle v) = "json" \/ l_enc (represent pickle v) = "base85") /\
+  forall v', decode unpickle (represent pickle v) = Some v' -> represent pickle v' = represent pickle v.
+Proof. exact literal_survives_l. Qed.
+Print Assumptions literal_survives_reload.
+
+Theorem literal_change_changes_entry : forall pickle unpickle, pickle_contract pickle unpickle ->
+  forall v w, pyv_wf v = true -> pyv_wf w = true -> v <> w -> represent pickle v <> represent pickle w.
+Proof. exact literal_change_l. Qed.
+Print Assumptions literal_change_changes_entry.
+
+(* non-vacuity of the literal theorems: a tuple inside a list, an int-keyed dict, a subclass instance and a
+   non-finite float are not JSON-exact; a nested JSON value is, is well-formed and is read back unchanged *)
+Example c13_literals_nonvacuous :
+  let v := PDict [(PStr "a", PList [PInt "1"; PFloat "-0.0"; PNone; PBool true]); (PStr "b", PDict [(PStr "1", PStr "one")])] in
+  json_exact v = true /\ pyv_wf v = true /\ of_json (to_json v) = v /\
+  json_exact (PList [PInt "1"; PTuple [PInt "2"]]) = false /\ json_exact (PDict [(PInt "1", PStr "one")]) = false /\
+  json_exact (PSub (PFloat "2.5")) = false /\ json_exact (PFloatNF "nan") = false /\
+  to_json (PTuple [PInt "1"; PInt "2"]) = to_json (PList [PInt "1"; PInt "2"]) /\
+  PTuple [PInt "1"; PInt "2"] <> PList [PInt "1"; PInt "2"].
+Proof. cbv zeta. repeat split; try (vm_compute; reflexivity). discriminate. Qed.
 
 (* non-vacuity: a named, versioned pipeline with a multi-type input, a literal, settings with a null, a default
    connection, two aliases declared out of order and a default node is reachable, well-formed, builds, lies in
